@@ -35,9 +35,12 @@ def bitsToNat : Nat → (Nat → Bool) → Nat
   | n + 1, f => (if f 0 then 1 else 0) + 2 * bitsToNat n (fun k => f (k + 1))
 
 /-- byte `j` after the store of the integer `u` into the bits `[lo, hi)` (bit 0 of `u` at `lo`):
-`(old & ~mask) | (u << before & mask)` -/
+`(old & ~mask) | (u << before & mask)`; a byte of the storage unit without a bit of the field is
+stored back as it was loaded -/
 def rmwCell (lo hi u j : Nat) (old : Cell) : Cell :=
-  .byte (bitsToNat 8 fun k => if lo ≤ 8 * j + k ∧ 8 * j + k < hi then u.testBit (8 * j + k - lo) else (cval old).testBit k)
+  if lo < 8 * j + 8 ∧ 8 * j < hi then
+    .byte (bitsToNat 8 fun k => if lo ≤ 8 * j + k ∧ 8 * j + k < hi then u.testBit (8 * j + k - lo) else (cval old).testBit k)
+  else old
 
 /-- byte `k` of a value stored whole -/
 def valByte (v : Val) (k : Nat) : Cell :=
@@ -71,10 +74,10 @@ def step (s : ASt) (i : Init) : ASt :=
     -- `for (i = 0; i < string.size && i * w < end - start; ++i)`
     let n := min cs.length ((i.stop - i.start + w - 1) / w)
     let off := i.start + n * w
-    { mem := storeStr m1 i n w, offset := off, max := Nat.max s.max off }
+    { mem := storeStr m1 i n w, offset := off, max := Max.max s.max off }
   | _ =>
     let m2 := if s.offset < i.stop ∧ (i.before ≠ 0 ∨ i.after ≠ 0) then zero m1 s.offset i.stop else m1
-    { mem := store m2 i, offset := i.stop, max := Nat.max s.max i.stop }
+    { mem := store m2 i, offset := i.stop, max := Max.max s.max i.stop }
 
 /-- `funcinit` for an object of `size` bytes whose memory holds `garb` before -/
 def funcinit (size : Nat) (garb : Mem) (l : List Init) : Mem :=
